@@ -196,6 +196,26 @@ def scripted_cases():
                   [["peer_set_best", main[:fork_parent + 1] + fork], ["deliver", 0], ["settle", SETTLE],
                    ["peer_set_best", main[:fork_parent + 1] + fork + [90]], ["settle", SETTLE]]
             res.append({"cfg": {"parents": par + [[90, fork[-1]]], "start": 0, "m": 2000}, "ops": ops})
+    # duplicated announcement while the announced blocks arrive out of request order: in sync, P, Q, R announced (one
+    # message each / one message for all), the announcement of Q is duplicated, Q's block arrives before P's, the
+    # duplicate is handled in exactly that window (Q received and not yet processed, P still open).  The duplicate
+    # names blocks that are requested / received, so it must change nothing.
+    par = [[i, i - 1] for i in range(1, 9)]
+    main = list(range(0, 9))
+    for single in (True, False):
+        for extra_tail in (0, 1):
+            ops = [["peer_set_best", main[:5]], ["settle", SETTLE]]
+            if single:
+                ops += [["peer_set_best", main[:6]], ["peer_set_best", main[:7]], ["peer_set_best", main[:8]], ["dup", 1],
+                        ["deliver", 0], ["deliver", 0], ["deliver", 0], ["answer", 0], ["answer", 0], ["answer", 0]]
+            else:
+                ops += [["peer_set_best", main[:8]], ["dup", 0], ["deliver", 0], ["answer", 0]]
+            # channel now: the duplicate, block 5 (P), block 6 (Q), block 7 (R)
+            ops += [["deliver", 2], ["deliver", 0]]
+            if extra_tail:
+                ops += [["process"], ["deliver", 0], ["process"]]
+            ops += [["settle", SETTLE], ["peer_set_best", main], ["settle", SETTLE]]
+            res.append({"cfg": {"parents": par, "start": 0, "m": 2000}, "ops": ops})
     # several blocks requested at once, some processed while a later one is outstanding, and exactly then the request
     # queue is emptied: by a disconnect / a request time-out, or by the peer replacing the outstanding block
     par = [[i, i - 1] for i in range(1, 12)] + [[60, 8], [61, 60], [62, 61]]
@@ -440,12 +460,124 @@ def extra(tier, rng, workdir):
             "coverage": {"reconnect_worlds": tot, "reconnect_worlds_covered": yes}}
 
 
+# ---- which out-of-order / duplicated delivery a failing non-FIFO history needs ----------------------------------
+# Codes 107 / 108 are "stalled / notified too early on a history that is not in order".  The known findings of
+# that kind are identified by WHAT had to be out of order: the disorder steps of the history are found from the
+# channel contents in the observations, each is taken out in turn, and those whose removal makes the failure
+# disappear are the signature that goes into the key.  Another failure of the same code with another signature is
+# not the listed finding and is reported.
+
+def parse_conv(ob):
+    try:
+        n = ob[9]
+        chain = ob[10:10 + n]
+        i = 10 + n
+        pi = ob[i + 1:i + 1 + ob[i]]
+        j = 4 + pi[3]
+        nchan, nreqs = pi[j], pi[j + 1]
+        j += 2
+        chan, reqs = [], []
+        for _ in range(nchan):
+            k = pi[j]
+            if k == 1:
+                chan.append(("version", []))
+                j += 1
+            elif k == 2:
+                m = pi[j + 1]
+                chan.append(("headers", list(pi[j + 2:j + 2 + m])))
+                j += 2 + m
+            else:
+                chan.append(("block" if k == 3 else "inv", [pi[j + 1]]))
+                j += 2
+        for _ in range(nreqs):
+            k = pi[j]
+            if k in (1, 2):
+                m = pi[j + 1]
+                reqs.append(("getheaders" if k == 1 else "getdata", list(pi[j + 2:j + 2 + m])))
+                j += 2 + m
+            else:
+                reqs.append(("sendheaders", []))
+                j += 1
+        return {"chain": list(chain), "chan": chan, "reqs": reqs}
+    except (IndexError, TypeError):
+        return None
+
+
+def msg_kind(m, chain):
+    k, ids = m
+    if k == "headers":
+        return "headers-known" if all(x in chain for x in ids) else "headers-new"
+    return k
+
+
+def disorder_steps(ops, trace, upto):
+    """[(index, description)] of the steps up to `upto` that take something else than the head of a queue"""
+    res = []
+    pre = {"chain": [0], "chan": [("version", [])], "reqs": []}
+    for i, (o, ob) in enumerate(zip(ops, trace)):
+        if i > upto:
+            break
+        if pre is not None:
+            ch, chain, rq = pre["chan"], pre["chain"], pre["reqs"]
+            if o[0] == "deliver" and ch and o[1] % len(ch) > 0:
+                k = o[1] % len(ch)
+                res.append((i, "%s-before-%s" % (msg_kind(ch[k], chain), "+".join(sorted(set(msg_kind(m, chain) for m in ch[:k]))))))
+            elif o[0] == "dup" and ch:
+                res.append((i, "dup-%s" % msg_kind(ch[o[1] % len(ch)], chain)))
+            elif o[0] == "answer" and rq and o[1] % len(rq) > 0:
+                k = o[1] % len(rq)
+                res.append((i, "answer-%s-before-%s" % (rq[k][0], "+".join(sorted(set(r[0] for r in rq[:k]))))))
+        pre = parse_conv(ob)
+    return res
+
+
+SIG_CACHE = {}
+SIG_BUDGET = [40]
+
+
+def disorder_signature(rec):
+    ck = json.dumps([rec.get("cfg"), rec.get("ops"), rec.get("step")], sort_keys=True)
+    if ck in SIG_CACHE:
+        return SIG_CACHE[ck]
+    ops, trace, step = rec.get("ops", []), rec.get("trace") or [], rec.get("step", 0)
+    ds = disorder_steps(ops, trace, step)
+    if not ds:
+        sig = "none"
+    elif SIG_BUDGET[0] <= 0:
+        sig = "unshrunk"
+    else:
+        SIG_BUDGET[0] -= 1
+        cases = []
+        for i, _ in ds:
+            if ops[i][0] == "dup":
+                v = ops[:i] + ops[i + 1:]
+            else:
+                v = ops[:i] + [[ops[i][0], 0]] + ops[i + 1:]
+            cases.append({"cfg": rec["cfg"], "ops": [list(o) for o in v]})
+        try:
+            for c in cases:
+                c["coq_ops"] = [coq_op(o, bool(c["cfg"].get("bgblocks"))) for o in c["ops"]]
+            pre = ["From V.model Require Import Requests Sync SyncSpec Peer.", "From V.gen Require Import Consts."]
+            su = Suite("converge", "converge", pre, [{"key": "sig", "optype": "cop", "cases": cases, "monitors": MON}])
+            r = checklib.eval_suite(su, os.path.join(vlib.WORK, "C01", "sig%d" % SIG_BUDGET[0]))
+            still = set(x["case_index"] for x in r["monitor_fail"] if x["checker"] == "c01")
+            need = sorted(set(d for n, (_, d) in enumerate(ds) if n not in still))
+            sig = ",".join(need) if need else "any-of:" + ",".join(sorted(set(d for _, d in ds)))
+        except Exception as e:      # the key must never depend on a crash of the shrinker
+            sig = "unshrunk"
+    SIG_CACHE[ck] = sig
+    return sig
+
+
 def keyfn(rec):
     ops = rec.get("ops", [])
     step = rec.get("step", 0)
     opn = ops[step][0] if 0 <= step < len(ops) else "?"
     code = (rec.get("expected") or [0])[0] if rec.get("checker") != "model" else 0
-    return "converge:%s:%s:%s" % (rec.get("checker"), code, opn)
+    key = "converge:%s:%s:%s" % (rec.get("checker"), code, opn)
+    if rec.get("checker") == "c01" and code in (107, 108):
+        key += ":" + disorder_signature(rec)
+    return key
 
 
 SPEC = {
